@@ -171,8 +171,11 @@ class SessionRun(ClientRun):
                 from aioesphomeapi import api_pb2
 
                 r = api_pb2.VoiceAssistantResponse()
-                r.ParseFromString(payload)
-                n += ":error" if r.error else f":port:{r.port - 12000}"
+                try:
+                    r.ParseFromString(payload)
+                    n += ":error" if r.error else f":port:{r.port - 12000}"
+                except Exception:  # noqa: BLE001
+                    n += ":undecodable"
             wl.append(n)
         done = []
         for op in w.poll_ops():
